@@ -57,7 +57,7 @@ CLAIMED = {
         'technique': 'custom static analysis: reaching-definition provenance, must-precede dominance, flag-sensitive untrusted-value typestate, index agreement',
     },
     'C04': {
-        'text': 'One clause, statically decided (level "other"): mate-distance encoding agreement. By exhaustive constant evaluation of the '
+        'text': 'Two clauses, statically decided (level "other"): (1) mate-distance encoding agreement. By exhaustive constant evaluation of the '
                 'source expressions over mates in 0..60 moves x plies 0..40 x clocks, the scores produced by TBGenerator::probeDTM and the '
                 'checkmate scores of negaScout/quiesce form one linear family, and every decoder recovers the distance exactly: '
                 'rule50Margin (2n-1 plies for the winner, 2n for the loser), TBProbe::extendPV, the UCI mate conversion in notifyPV, the '
